@@ -396,6 +396,44 @@ def corr_dispatch(ck: Ck, F: dict, rows: list[dict]) -> None:
 
 
 
+def corr_angle_operand(ck: Ck) -> None:
+    """c04_angle_operand_same_computation on the implementation: for every form and every left class, `x OP angle` and
+    `x OP Matrix.from_angle(angle)` give the same bits (they are the same float computation, not merely equal over the reals)."""
+    from srctools.math import FrozenMatrix, Matrix
+    reps = ck.budget(6, 80)
+    bad: list[dict] = []
+    for form in ('matmul', 'imatmul', 'rmatmul'):
+        for lc in CONCRETE:
+            for rc in ('Angle', 'FrozenAngle'):
+                for mc in (Matrix, FrozenMatrix):
+                    for _ in range(reps):
+                        vl, vr = rand_vals(ck.rng), rand_vals(ck.rng)
+                        try:
+                            L1, A = make(lc, vl), make(rc, vr)
+                            r1 = apply_form(form, L1, A)
+                            L2 = make(lc, vl)
+                            r2 = apply_form(form, L2, mc.from_angle(make(rc, vr)))
+                        except Exception:      # noqa: BLE001 - reported by the operand-matrix search with a replay
+                            continue
+                        if isinstance(r1, str) or isinstance(r2, str):
+                            # NotImplemented: only the explicitly reflected method may defer, and the theorem speaks about
+                            # rows that return a value; `unsupported` for @ / @= is the operand-matrix search's finding
+                            continue
+                        else:
+                            same = [bits(x) for x in snapshot(r1)] == [bits(x) for x in snapshot(r2)]      # value: the class is the table's business
+                        ck.count('angle_operand_bitwise_cases')
+                        if not same and len(bad) < 5:
+                            bad.append({'form': form, 'left': lc, 'angle': rc, 'matrix': mc.__name__, 'left_vals': vl, 'angle_vals': vr['A'],
+                                        'with_angle': r1 if isinstance(r1, str) else snapshot(r1),
+                                        'with_matrix': r2 if isinstance(r2, str) else snapshot(r2)})
+    ck.obligation('correspondence:angle-operand-same-computation', not bad,
+                  f'3 forms x 7 left classes x 2 angle classes x 2 matrix classes x {reps} value sets: x @ angle vs '
+                  f'x @ Matrix.from_angle(angle), bit for bit: {len(bad)}+ differences')
+    if bad:
+        ck.tie_broken.append('x @ Angle is not bit-identical to x @ Matrix.from_angle(Angle)')
+        ck.extra['angle_operand_differences'] = bad
+
+
 # =============================================================================================== inverse(): Gauss-Jordan
 def coq_float(x: float) -> str:
     """An IEEE double as an exact Coq primitive-float term."""
@@ -1177,6 +1215,64 @@ def corr_rounding(ck: Ck) -> None:
         ck.extra['rounding_disagreements'] = bad
 
 
+def corr_euler_float(ck: Ck) -> None:
+    """The hypothesis of c04_euler_roundtrip_binary64, measured: for float angles (p, y, r) let M* be the EXACT rotation
+    from_angle(p, y, r) (60-digit decimal arithmetic) and a* its exact Euler angles, whose sin / cos are horiz M*, -ac, aa/h,
+    ab/h, bc/h, cc/h.  The implementation computes M_f = Matrix.from_angle(p, y, r), a_f = M_f.to_angle() and, inside
+    Matrix.from_angle(a_f), the six libm values sin / cos(radians(a_f)).  Their distance from the exact ones is the `d` of the
+    theorem (it contains the float error of from_angle, atan2, degrees, % 360, radians, sin, cos; amplified by 1/h near the
+    band).  Also compared directly: Matrix.from_angle(a_f) against M* (the conclusion)."""
+    import decimal
+    from srctools.math import Matrix
+    ins, _fts = trr.from_angle_trees()
+    n = ck.budget(300, 3000)
+    worst_d, worst_e, used = 0.0, 0.0, 0
+    worst_at: Any = None
+    with decimal.localcontext() as ctx:
+        ctx.prec = 60
+        for i in range(n):
+            rng = ck.rng
+            if i % 3 == 0:      # just outside the band: horizontal length 0.001 .. 0.1
+                h = 10.0 ** rng.uniform(-3, -1)
+                p = rng.choice([90.0, -90.0, 270.0]) + rng.choice([1, -1]) * math.degrees(math.asin(min(1.0, h))) * 1.0000001
+                y, r = rng.uniform(-360, 360), rng.uniform(-360, 360)
+            else:
+                (p, y, r), _ = gen_angle(rng)
+            (sp, cp), (sy, cy), (sr, cr) = hp_sin_cos(p), hp_sin_cos(y), hp_sin_cos(r)
+            M = [cp * cy, cp * sy, -sp, sr * sp * cy - cr * sy, sr * sp * sy + cr * cy, sr * cp,
+                 cr * sp * cy + sr * sy, cr * sp * sy - sr * cy, cr * cp]
+            hstar = (M[0] * M[0] + M[1] * M[1]).sqrt()
+            Mf = Matrix.from_angle(p, y, r)
+            if not (hstar > Decimal('0.0011') and math.hypot(Mf[0, 0], Mf[0, 1]) > 0.0011):
+                ck.hist('euler_float_class', 'inside or at the gimbal band (skipped)')
+                continue
+            used += 1
+            ck.count('euler_float_cases')
+            ck.hist('euler_float_class', 'horizontal length < 0.1' if hstar < Decimal('0.1') else 'general')
+            af = Mf.to_angle()
+            aenv = {'pitch': af.pitch, 'yaw': af.yaw, 'roll': af.roll}
+            target = {('cos', 'pitch'): hstar, ('sin', 'pitch'): -M[2], ('cos', 'yaw'): M[0] / hstar, ('sin', 'yaw'): M[1] / hstar,
+                      ('sin', 'roll'): M[5] / hstar, ('cos', 'roll'): M[8] / hstar}
+            for ir in ins:
+                if not (ir[0] == 'call' and ir[1] in ('sin', 'cos') and ir[2][0] == 'call' and ir[2][1] == 'radians'
+                        and ir[2][2][0] == 'var' and (ir[1], ir[2][2][1]) in target):
+                    ck.obligation('correspondence:euler-angle-inputs', False, f'unexpected input of from_angle: {ir!r}')
+                    return
+                dd = abs(float(Decimal(tr.py_eval(ir, aenv)) - target[(ir[1], ir[2][2][1])]))
+                if dd > worst_d:
+                    worst_d, worst_at = dd, (p, y, r)
+            back = snapshot(Matrix.from_angle(af))
+            worst_e = max(worst_e, max(abs(float(Decimal(b) - m)) for b, m in zip(back, M)))
+            ck.seen(('euler-float', p, y, r))
+    ck.extra['euler_float_worst_input_error'] = worst_d
+    ck.extra['euler_float_worst_roundtrip_error'] = worst_e
+    ck.obligation('correspondence:euler-angle-inputs', used > 0 and worst_d <= 2e-14 and worst_e <= 2e-13,
+                  f'{used} rotations with horizontal length > 0.0011 (a third of them below 0.1): sin / cos of the float Euler angles '
+                  f'vs the exact ones of the exact rotation (60 digits): largest distance {worst_d:.3g} at {worst_at} (hypothesis d of '
+                  f'c04_euler_roundtrip_binary64, instantiated with 2e-14); Matrix.from_angle(M.to_angle()) vs the exact rotation: '
+                  f'largest entry error {worst_e:.3g} (the theorem gives 2e-13)')
+
+
 _PI50 = '3.14159265358979323846264338327950288419716939937510582097494'
 
 
@@ -1310,6 +1406,10 @@ def run(ck: Ck) -> None:
             'from_angle_arithmetic_rounding_error_below_1e-15': 'errs_within_in 1 0 (1 # 1000000000000000) from_angle_fe',
             'from_angle_error_below_3e-14_given_sin_cos_within_5e-15':
                 'errs_within_in 1 (5 # 1000000000000000) (3 # 100000000000000) from_angle_fe',
+            # Matrix -> Angle -> Matrix in binary64 outside the gimbal band (c04_euler_roundtrip_binary64; d measured by
+            # correspondence:euler-angle-inputs)
+            'euler_roundtrip_error_below_2e-13_given_sin_cos_within_2e-14':
+                'errs_within_in 1 (2 # 100000000000000) (2 # 10000000000000) from_angle_fe',
         })
     if ok_i and models:
         # gj_prog_ok: what inverse() returns when it returns; gj_total_ok (Rot/RotGJTotal.v, interval / determinant abstract
@@ -1343,7 +1443,7 @@ def run(ck: Ck) -> None:
     if A is not None and models:
         core = ck.build(['Rot/RotAlgebra.vo', 'Rot/RotAliasProofs.vo', 'Rot/RotEulerProofs.vo', 'Rot/RotDispatchProofs.vo',
                          'Rot/RotGJProofs.vo', 'Rot/RotGJTotalProofs.vo', 'Rot/RotGJExample.vo'] + (['Rot/RotReifyProofs.vo'] if ok_r else [])
-                        + (['Rot/RotRoundProofs.vo', 'Rot/RotRoundFlocq.vo', 'Rot/RotRoundTied.vo'] if ok_rr else []))
+                        + (['Rot/RotRoundProofs.vo', 'Rot/RotRoundFlocq.vo', 'Rot/RotRoundTied.vo', 'Rot/RotRoundEuler.vo'] if ok_rr else []))
         built = core and ck.build(['Props/C04.vo'])
         if built:
             theorems_with_axioms(ck)
@@ -1351,12 +1451,14 @@ def run(ck: Ck) -> None:
     if A is not None:
         corr_formulas(ck, A['F'])
         corr_dispatch(ck, A['F'], A['rows'])
+        corr_angle_operand(ck)
     if ok_i and models:
         corr_inverse(ck)
     if ok_ip:
         corr_inplace_census(ck)
     if ok_rr:
         corr_rounding(ck)
+        corr_euler_float(ck)
     found: dict[str, tuple[str, dict]] = {}
     search_operands(ck, found)
     search_identities(ck, found)
